@@ -52,6 +52,7 @@ class Contract:
         self.ghost_out = dict(d.get("ghost_out", {}))  # local name -> Ty: final values of locals exposed to ensures
         self.functional = bool(d.get("functional", False))  # result is a deterministic function of the arguments
         self.ghost_yield = d.get("ghost_yield")  # Ty of yielded values for generators
+        self.params = d.get("params")     # explicit parameter list (when a real parameter is called `result`/`old`)
         self.uses = list(d.get("uses", []))
         self.uses_axioms = list(d.get("uses_axioms", []))   # @assumed statements, asserted universally at entry
         self.notes = d.get("notes", "")
